@@ -961,8 +961,8 @@ def series_transformer_subjects(tier, seed):
                         return Imputer(**k2)
                     for (n, kind, start) in pick(i):
                         na = tuple(p % n for p in nan_at)
-                        if method in ("drift", "forecaster") and kind == "period":
-                            kind = "range"
+                        if method in ("drift", "forecaster") and kind in ("period", "datetime"):
+                            kind = "range"      # (the forecasters inside raise on period / datetime arithmetic here)
                         out.append(st_subject(f"Imputer({kw}{', forecaster=Naive(drift)' if method == 'forecaster' else ''})"
                                               f" on data with NaN at positions {na}", mk, n, kind, start, seed + i,
                                               container, st_calls(False, other=thorough or method == "random"),
@@ -980,7 +980,7 @@ def series_transformer_subjects(tier, seed):
         for ci, container in enumerate(containers):
             for fi, fit in enumerate(fits):
                 for (n, kind, start) in pick(len(out) + fi, k):
-                    if no_period and kind == "period":
+                    if no_period and kind in ("period", "datetime"):
                         kind = "int64"
                     out.append(st_subject(label, make, max(n, n_min), kind, start, seed + fi, container,
                                           st_calls(inverse, later=later), fit=fit, positive=positive))
